@@ -16,6 +16,7 @@ EXPLANATION = ("Static MIR rules over crate mla: (R03.1) for every call site of 
                "(exactly resolved, or through a fn pointer of the type a member was reified to) of a function that may return AuthenticatedDecryptionWrongTag, no "
                "Ok(..) result is reachable on the wrong-tag-consistent paths from its Err edge, so an altered chunk is never skipped; references to the "
                "unauthenticated functions through fn pointers count as calls for the allowlist of R03.2. "
+               "(R03.6) both chunk loaders empty the plaintext cache (clear / take / replace / assignment) before the single read of the chunk, so a failed or short load never leaves the previous chunk's plaintext to be served. "
                "Decides the structural clause, not the runtime behaviour.")
 TRUSTED = ['rustc MIR construction and callee resolution', 'subtle::ConstantTimeEq', 'RustCrypto aes/ctr/ghash', 'std::io']
 ASSUMPTIONS = ['GHASH/CTR compute the standard tag (numeric; not decided)', 'dependencies are not analysed']
